@@ -2,6 +2,7 @@ package vc
 
 import (
 	"go/types"
+	"sync"
 
 	"golang.org/x/tools/go/ssa"
 )
@@ -41,14 +42,59 @@ func (x *Exec) lookup(st *State, fr *Frame, in *ssa.Lookup) Val {
 	return Val{}
 }
 
+// String iteration.  The iterator's byte position lives in a hidden cell keyed
+// by the Range instruction; Next yields (ok, position, rune).  Bytes below
+// 0x80 are their own rune and advance by one; for any other lead byte the
+// rune (>= 0x80, or RuneError) and the width (1..4, staying inside the string)
+// are left unconstrained: a sound over-approximation of UTF-8 decoding.
+var iterAllocs = map[*ssa.Range]*ssa.Alloc{}
+var iterMu sync.Mutex
+
+func iterAlloc(r *ssa.Range) *ssa.Alloc {
+	iterMu.Lock()
+	defer iterMu.Unlock()
+	a := iterAllocs[r]
+	if a == nil {
+		a = &ssa.Alloc{Comment: "iterpos"}
+		iterAllocs[r] = a
+	}
+	return a
+}
+
 func (x *Exec) rangeInstr(st *State, fr *Frame, in *ssa.Range) Val {
-	unsup("range over %s", in.X.Type())
-	return Val{}
+	if !isString(in.X.Type()) {
+		unsup("range over %s", in.X.Type())
+	}
+	s := x.value(fr, st, in.X)
+	st.cells[cellKey{fr.id, iterAlloc(in)}] = Val{S: "0", T: types.Typ[types.Int]}
+	return Val{S: x.S.Define("its", "Slice", x.term(s)), T: in.X.Type()}
 }
 
 func (x *Exec) nextInstr(st *State, fr *Frame, in *ssa.Next) Val {
-	unsup("next")
-	return Val{}
+	rng, ok := in.Iter.(*ssa.Range)
+	if !ok || !in.IsString {
+		unsup("next over a non-string iterator")
+	}
+	k := cellKey{fr.id, iterAlloc(rng)}
+	pv, live := st.cells[k]
+	if !live {
+		unsup("string iterator used outside its loop")
+	}
+	s := x.term(x.value(fr, st, rng))
+	pos := pv.S
+	x.assume(st, And("(<= 0 "+pos+")", "(<= "+pos+" (s_len "+s+"))"))
+	okT := x.S.Define("itok", "Bool", "(< "+pos+" (s_len "+s+"))")
+	bt := types.Typ[types.Uint8]
+	b := x.S.Define("itb", "Int", x.heapLoad(st, bt, "(s_reg "+s+")", "(+ (s_off "+s+") "+pos+")"))
+	wr := x.S.Const("itrune", "Int")
+	ww := x.S.Const("itw", "Int")
+	x.assume(st, Imp(And(okT, "(>= "+b+" 128)"), And("(>= "+wr+" 128)", "(<= "+wr+" 1114111)", "(<= 1 "+ww+")", "(<= "+ww+" 4)", "(<= (+ "+pos+" "+ww+") (s_len "+s+"))")))
+	x.assume(st, Imp(okT, And("(<= 0 "+b+")", "(<= "+b+" 255)")))
+	r := x.S.Define("itr", "Int", Ite("(< "+b+" 128)", b, wr))
+	np := x.S.Define("itn", "Int", Ite(okT, Ite("(< "+b+" 128)", "(+ "+pos+" 1)", "(+ "+pos+" "+ww+")"), pos))
+	st.cells[k] = Val{S: np, T: types.Typ[types.Int]}
+	tup := in.Type().(*types.Tuple)
+	return Val{Tup: []Val{{S: okT, T: tup.At(0).Type()}, {S: pos, T: tup.At(1).Type()}, {S: r, T: tup.At(2).Type()}}, T: in.Type()}
 }
 
 // calleeVarName finds the source name of the variable a dynamic call goes through.
